@@ -38,7 +38,7 @@ Section Who.
   Theorem tick_monotone e rounds fuel main s main' s' raised :
     tick p rounds fuel e main s = Some (main', s', raised) -> forall m, A2 m (st s m) (st s' m).
   Proof.
-    apply (tick_ok p e A2); unfold A2.
+    apply (tick_ok p e A2 (fun _ => True)); unfold A2; [..|exact (fun _ => I)].
     - intros m x _. split; auto.
     - intros m x y z H1 H2 U. destruct (H1 U) as [A B], (H2 U) as [C D]. split; auto.
     - intros m x _. split; auto.
@@ -87,7 +87,7 @@ Section Who.
   Theorem tick_threshold e rounds fuel main s main' s' raised :
     tick p rounds fuel e main s = Some (main', s', raised) -> forall m, A3 e m (st s m) (st s' m).
   Proof.
-    apply (tick_ok p e (A3 e)); unfold A3.
+    apply (tick_ok p e (A3 e) (fun _ => True)); unfold A3; [..|exact (fun _ => I)].
     - intros m x _. repeat split; auto.
     - intros m x y z H1 H2 U. destruct (H1 U) as [A [B C]], (H2 U) as [D [E F]]. split; [auto|split; [auto|]].
       intros Sz. destruct (F Sz) as [Sy|[Cz|[Fy|Wm]]]; auto. destruct (C Sy) as [Sx|[Cy|[Fx|Wm]]]; auto.
@@ -98,7 +98,7 @@ Section Who.
     - intros m x w _. repeat split; auto.
     - intros m x i r _. repeat split; auto.
     - intros m x _ _ _. repeat split; auto.
-    - intros m x H _. split; [auto|split; [auto|]]. intros _. destruct H as [H|H]; [now left|].
+    - intros m x _ H _. split; [auto|split; [auto|]]. intros _. destruct H as [H|H]; [now left|].
       destruct (completed x) eqn:Ec; [right; left; exact Ec|]. destruct (forced x) eqn:Ef; [right; right; left; reflexivity|].
       right. right. right. unfold W. cbn [negb andb] in H.
       destruct (n_thr (nd p m)); [|reflexivity]. destruct (memn m (e_thr_wait e)); [discriminate|reflexivity].
@@ -117,7 +117,7 @@ Section Who.
   Theorem tick_activation e rounds fuel main s main' s' raised :
     tick p rounds fuel e main s = Some (main', s', raised) -> forall m, A4 e m (st s m) (st s' m).
   Proof.
-    apply (tick_ok p e (A4 e)); unfold A4.
+    apply (tick_ok p e (A4 e) (fun _ => True)); unfold A4; [..|exact (fun _ => I)].
     - intros m x. split; auto.
     - intros m x y z [A B] [D E]. split; [auto|]. intros Az. destruct (E Az) as [Ay|[Fy|Cm]]; auto.
     - intros m x. split; auto.
